@@ -66,27 +66,37 @@ def agreement(ctx, p):
     el = ctx.body('db::DbInner::enact_logs')
     if el:
         rs = el.call_sites("log::LogReader::<'a>::reset")
-        # the two matches on LogAction
-        sws = []
-        for bi in sorted(el.normal_blocks()):
-            t = el.term(bi)
-            if t['k'] != 'switch':
-                continue
-            d = lib.switch_def(el, bi)
-            if d and d[2] == 'assign' and d[3]['r']['k'] == 'discr' and len(d[3]['r']['p']) == 1 and el.locals[d[3]['r']['p'][0]] == 'log::LogAction':
-                sws.append(bi)
-        val = [s for s in sws if rs and any(r in el.reaches(s) for r in rs) and not any(s in el.reaches(r) for r in rs)]
+        # the two matches on LogAction: the apply pass (after reset) in enact_logs, the validation pass before reset - in
+        # enact_logs itself or in a helper extracted from it
+        def la_switches(b):
+            out = []
+            for bi in sorted(b.normal_blocks()):
+                t = b.term(bi)
+                if t['k'] != 'switch':
+                    continue
+                d = lib.switch_def(b, bi)
+                if d and d[2] == 'assign' and d[3]['r']['k'] == 'discr' and len(d[3]['r']['p']) == 1 and b.locals[d[3]['r']['p'][0]] == 'log::LogAction':
+                    out.append(bi)
+            return out
+        sws = la_switches(el)
         app = [s for s in sws if rs and any(s in el.reaches(r) for r in rs)]
-        ctx.ob(p + 'a two-matches', 'anchor', el.path, 'enact_logs has one match on LogAction in the validation pass and one in the apply pass', len(val) == 1 and len(app) == 1, 'validation %s apply %s' % (val, app))
+        val = [(el, s) for s in sws if rs and any(r in el.reaches(s) for r in rs) and not any(s in el.reaches(r) for r in rs)]
+        if not val:
+            for hb in lib.family(F, el.path):
+                if hb is not el and hb.kind != 'Closure' and hb.call_sites("log::LogReader::<'a>::next"):
+                    val += [(hb, s) for s in la_switches(hb)]
+        ctx.ob(p + 'a two-matches', 'anchor', el.path, 'one match on LogAction in the validation pass and one in the apply pass', len(val) == 1 and len(app) == 1, 'validation %s apply %s' % ([(b.path, s) for b, s in val], app))
         if len(val) == 1 and len(app) == 1:
+            vb, vsw = val[0]
             adt = F.adts['log::LogAction']
             names = {v['discr']: v['name'] for v in adt['variants']}
-            tv, ta = el.term(val[0]), el.term(app[0])
+            tv, ta = vb.term(vsw), el.term(app[0])
             arms_v = dict(zip(tv['vals'], tv['ts']))
             arms_a = dict(zip(ta['vals'], ta['ts']))
-            gets = [bi for bi, t in el.calls() if call_matches(t, ['core::slice::<impl [T]>::get', 're:Vec.*::get$']) and '.DbInner.columns' in lib.receiver_fields(el, t, 0)]
+            gets = [bi for bi, t in vb.calls() if call_matches(t, ['core::slice::<impl [T]>::get', 're:Vec.*::get$']) and '.DbInner.columns' in lib.receiver_fields(vb, t, 0)]
             idxs = [bi for bi, t in el.calls() if call_matches(t, ['re:Index<usize>>::index$', 're:Vec<column::Column> as std::ops::Index']) and '.DbInner.columns' in lib.receiver_fields(el, t, 0)]
-            nx = [s for s in el.call_sites("log::LogReader::<'a>::next") if s in el.reaches(val[0]) and val[0] in el.reaches(s)]
+            nx = [s for s in vb.call_sites("log::LogReader::<'a>::next") if s in vb.reaches(vsw) and vsw in vb.reaches(s)]
+            goal = set(nx) | (set(rs) if vb is el else set(vb.return_blocks()))
             for v, nm in sorted(names.items()):
                 if nm in ('BeginRecord', 'EndRecord'):
                     continue
@@ -98,17 +108,17 @@ def agreement(ctx, p):
                 if not uses_index:
                     continue
                 tgt_v = arms_v.get(v, tv['ts'][-1])
-                w = el.find_path([tgt_v], set(nx) | set(rs), removed=set(gets) | core.error_exit_blocks(el)) if tgt_v is not None else ['?']
-                ctx.ob(p + 'b column-id-validated %s' % nm, 'K9-agreement', el.path,
+                w = vb.find_path([tgt_v], goal, removed=set(gets) | core.error_exit_blocks(vb)) if tgt_v is not None else ['?']
+                ctx.ob(p + 'b column-id-validated %s' % nm, 'K9-agreement', vb.path,
                        'the apply pass indexes self.columns with the column id of a %s record without a check, so the validation pass must bounds-check it (columns.get) in its %s arm' % (nm, nm),
-                       w is None, '' if w is None else 'validation arm continues without a bounds check of the column id: ' + lib.short_path(el, w), el.loc(uses_index[0]))
+                       w is None, '' if w is None else 'validation arm continues without a bounds check of the column id: ' + lib.short_path(vb, w), el.loc(uses_index[0]))
     # table validators bound what the appliers dereference
     for fn, fld in (('index::IndexTable::validate_plan', None), ('ref_count::RefCountTable::validate_plan', None)):
         b = ctx.body(fn)
         if not b:
             continue
-        reads = b.call_sites("log::LogReader::<'a>::read")
-        ctx.ob(p + 'c validator-reads %s' % fn, 'anchor', fn, 'the validator consumes the mask and the entries from the log', len(reads) == 2, str(reads))
+        reads = lib.sites_reaching(b, ["log::LogReader::<'a>::read"])       # directly or through a helper (skip_plan)
+        ctx.ob(p + 'c validator-reads %s' % fn, 'anchor', fn, 'the validator consumes the mask and the entries from the log', len(reads) >= 1, str(reads))
         if reads:
             lib.cond_guarded(ctx, p + 'd chunk-index-bounded-by-total_chunks %s' % fn, b, reads[0],
                              'the chunk index is compared with total_chunks() (the applier writes at META_SIZE + index * CHUNK_LEN; the file holds total_chunks chunks)',
@@ -116,9 +126,13 @@ def agreement(ctx, p):
             mod = fn.split('::')[0]
             ce = F.consts.get(mod + '::CHUNK_ENTRIES', {}).get('i')
             ctx.ob(p + 'e chunk-entries-const %s' % fn, 'anchor', fn, 'CHUNK_ENTRIES is a known constant', ce is not None, str(ce))
-            if ce is not None and ce < 64 and len(reads) == 2:
-                lib.cond_guarded(ctx, p + 'f mask-bounded %s' % fn, b, reads[1],
-                                 'the 64-bit entry mask is bounded by CHUNK_ENTRIES (%d) before entries are consumed: the applier slices the chunk at bit * ENTRY_BYTES' % ce, consts=[ce])
+            if ce is not None and ce < 64:
+                # the reads that consume the entries sit in a loop (one per mask bit), in the validator or a helper of it
+                loop_reads = [(fb, s2) for fb in [b] + [x for x in lib.family(F, fn) if x is not b] for s2 in fb.call_sites("log::LogReader::<'a>::read") if s2 in fb.reaches(s2)]
+                ctx.ob(p + 'f0 entry-read-loop %s' % fn, 'anchor', fn, 'the entries are consumed in a loop', len(loop_reads) >= 1, '')
+                for fb, s2 in loop_reads:
+                    lib.cond_guarded(ctx, p + 'f mask-bounded %s' % fn, fb, s2,
+                                     'the 64-bit entry mask is bounded by CHUNK_ENTRIES (%d) before entries are consumed: the applier slices the chunk at bit * ENTRY_BYTES' % ce, consts=[ce])
     # value table: validator and applier take the same decisions and consume the same pieces
     vv, ve = ctx.body('table::ValueTable::validate_plan'), ctx.body('table::ValueTable::enact_plan')
     if vv and ve:
@@ -207,7 +221,11 @@ def panic_audit(ctx, p):
                 sizes = [c.get('i') for c in sl.consts if c.get('ty') == 'usize']
                 if not sizes or max(sizes) > 8:
                     bad.append('%s sizes %s' % (nx.loc(bi), sizes))
-        ctx.ob(p + '4c read_buf-sizes-constant', 'K8-const', nx.path, 'every call of the read_buf closure passes a constant size <= 8 (it slices an 8-byte buffer)', not bad and n >= 6, '; '.join(bad) or '%d calls' % n)
+        # only meaningful while a closure of `next` slices its buffer by a size parameter (reviewed panic site); without such a
+        # closure the slices sit in `next` itself and are handled by the audit above
+        slicing = [c for c in F.closures_of(nx.path) if any(re.search(r'ops::Index(Mut)?<std::ops::Range', (t.get('fa') or '') + (t.get('r') or '')) for _, t in c.calls())]
+        ctx.ob(p + '4c read_buf-sizes-constant', 'K8-const', nx.path, 'every call of a buffer-slicing closure of LogReader::next passes a constant size <= 8 (it slices an 8-byte buffer)',
+               not bad and (n >= 1 or not slicing), '; '.join(bad) or '%d calls, %d slicing closures' % (n, len(slicing)))
 
 
 def run(ctx):
